@@ -121,7 +121,7 @@ def replay(chk: Check, path: str, owner: str) -> int:
         from . import account_cross
         account_cross.replay_cross(chk, r)
         return chk.finish("replay of one composite account run")
-    if kind == "wallet_path":
+    if kind in ("wallet_path", "wallet_swap_path"):
         from . import wallet_cross
         wallet_cross.replay_cross(chk, r)
         return chk.finish("replay of one recorded wallet path")
